@@ -381,6 +381,11 @@ public:
             nev_adj = nev_adjusted(nconv);
             restart(nev_adj, selection);
         }
+        // If the loop ran out of iterations, the Ritz pairs have been updated by the
+        // last restart (or never tested when maxit <= 0), so the convergence flags
+        // must be recomputed for the pairs that are actually returned
+        if (i >= maxit)
+            nconv = num_converged(tol);
         // Sorting results
         sort_ritzpair(sorting);
 
